@@ -153,9 +153,12 @@ def run(ctx):
     tl += ["hdr.rt\tcte\t" + e for e in ("7bit", "8bit", "quoted-printable", "base64", "binary")]
     fnames = ["a.txt", "", "é.pdf", 'q"uote', "semi;colon", ' filename="x"', "a; filename=\"b\"", "x" * 300, "é" * 80, "a b", "tab\tname", "back\\slash", "percent%20", "star*", "'", "a\r\nb"]
     tl += ["hdr.rt\tcdisp\t%s\t%s" % (k, hx(U(f))) for k in ("attachment", "inline") for f in fnames]
-    ctypes = ["text/plain", "text/plain; charset=utf-8", "multipart/mixed; boundary=\"abc def\"", "application/octet-stream", "text/html; charset=\"utf-8\"; x=y", "image/png", "multipart/signed; protocol=\"application/pgp-signature\"; micalg=pgp-sha256; boundary=b", "TEXT/PLAIN; CHARSET=US-ASCII", "a/b;c=d;e=\"f g\"", "application/x-" + "y" * 100 + "; p=" + "v" * 100]
+    ctypes = ["text/plain", "text/plain; charset=utf-8", "multipart/mixed; boundary=\"abc def\"", "application/octet-stream", "text/html; charset=\"utf-8\"; x=y", "image/png", "multipart/signed; protocol=\"application/pgp-signature\"; micalg=pgp-sha256; boundary=b", "TEXT/PLAIN; CHARSET=US-ASCII", "a/b;c=d;e=\"f g\"", "application/x-" + "y" * 100 + "; p=" + "v" * 100,
+              'application/pdf; name="a;b.txt"', 'multipart/mixed; boundary="----=_Part;42"', 'text/plain; name="a, b = c"; x="1;2;3"', 'text/plain; name=" lead and trail "', "text/plain;charset=utf-8", "text/plain;  charset=utf-8",
+              'text/plain; name="semi;colon"; charset=utf-8']
     tl += ["hdr.rt\tctype\t" + hx(U(c)) for c in ctypes]
-    tl += ["hdr.rt\tsubject\t" + hx(U(v)) for v in ["plain", "é", "a\r\nb", "", "x" * 500, "  lead and trail  "]]
+    for kind in ("subject", "comments", "messageid", "contentid"):
+        tl += ["hdr.rt\t%s\t%s" % (kind, hx(U(v))) for v in ["plain", "é", "a\r\nb", "", "x" * 500, "  lead and trail  ", "<id@host>", "a;b, c"]]
     ti = run_impl(tl)
     ctx.count(len(tl))
     tbad = [(l, r) for l, r in zip(tl, ti) if not (r == "eq" or r.startswith("eq\tzone-ok"))]
